@@ -10,7 +10,7 @@ NOT_APPLICABLE["C03"] = ("relation between an arbitrary dynamic call tree and an
                          "evolution of handler collections and accumulator forks; no sound static abstraction in reach bounds embeddings")
 NOT_APPLICABLE["C07"] = ("quantifies over call trees and runtime data flow through Total accumulator forks; its only structural clause "
                          "(exit hook on every way out) is decided under C06 rule R06.1")
-SOURCE_COMMITS = ["746fd1a fix: undo the instrumentation counts when the new variant cannot be installed", "798314f fix: untool the functions of a selector that autotool ends up refusing", "f8603ba fix: roll back the tooling of earlier selectors when a later one is refused", "e29e1a9 fix: mark the cached instrumented variants as helper functions", "ceee686 fix: match the receiver of a bound-method selector by identity", "f362961 fix: serialize instrumentation changes between threads", "3d31492 fix: do not rewrite the bodies of nested classes, lambdas and async functions", "744a5c2 fix: rewrite the right-hand side of assignments too", "2a0cb7a fix: collect the names bound in except bodies and by match patterns", "466fe4b fix: report the name bound by a dotted import"]
+SOURCE_COMMITS = ["746fd1a fix: undo the instrumentation counts when the new variant cannot be installed", "798314f fix: untool the functions of a selector that autotool ends up refusing", "f8603ba fix: roll back the tooling of earlier selectors when a later one is refused", "e29e1a9 fix: mark the cached instrumented variants as helper functions", "ceee686 fix: match the receiver of a bound-method selector by identity", "f362961 fix: serialize instrumentation changes between threads", "3d31492 fix: do not rewrite the bodies of nested classes, lambdas and async functions", "744a5c2 fix: rewrite the right-hand side of assignments too", "2a0cb7a fix: collect the names bound in except bodies and by match patterns", "466fe4b fix: report the name bound by a dotted import", "c1855a8 fix: do not bind the ABSENT marker to variables that are not instrumented"]
 
 claim("C12", "P", "AST normal-form comparison tables + wrapper-guard agreement (syntactic dataflow)",
       "Decides structural clauses only: each stock comparison predicate is the single comparison its name states (holds for all "
@@ -88,3 +88,16 @@ claim("C02", "T+P", "template queries (binding-site coverage against the collect
       "Event values at run time are not decided. Five genuine gaps (with-target, list target, walrus in store-target sub-expressions x2, keyed-target naming) are known findings.",
       "Trusted: engine T base (see C01); the collector effect table (see C10).",
       "DESIGN.md section 6, C02")
+
+claim("C04", "T+P", "template queries (value slot evaluated once, every overridable interaction consumed by its store/return/yield, overridable flags) and reaching-definition / ordering rules on Interactor.interact, WorkingFrame.intercept and the collection builders",
+      "Decides for all programs, binding forms and instrumentation subsets that the right-hand side is evaluated once, that what is stored / returned / yielded is the interact result, that closure variables "
+      "are reported read-only and an override attempt raises before anything is logged, that a declining override leaves the value untouched, that the last answering handler wins and that handlers are only ever "
+      "appended in activation order. Equivalence with a substituted twin program is not decided.",
+      "Trusted: engine T base (see C01).",
+      "DESIGN.md section 6, C04")
+claim("C16", "T+P", "taint analysis of the ABSENT marker: sources/sinks/sanitiser on the output templates, dominance of the raising guard in Interactor.interact (CFG), use-classification of the marker in the runtime modules",
+      "Decides for all programs, paths and instrumentation subsets that a term that may evaluate to the marker reaches user code only as the value argument of interact, where the guard "
+      "`value is ABSENT -> raise PteraNameError(varname, fn)` dominates log, trigger and return; that run-time marker values only flow into identity tests; and where the marker-capable lookup is interacted. "
+      "One genuine deviation (externals are interacted eagerly at entry) is a known finding.",
+      "Trusted: engine T base (see C01); DictPile(default=ABSENT) is the only defaulting lookup (checked).",
+      "DESIGN.md section 6, C16")
